@@ -63,6 +63,10 @@ def _stores_attr(func, text):
             out.append(sub)
         elif isinstance(sub, ast.AugAssign) and N.txt(sub.target) == text:
             out.append(sub)
+        elif isinstance(sub, ast.Call) and any(
+                kw.arg == 'out' and N.txt(kw.value) == text
+                for kw in sub.keywords):
+            out.append(sub)         # written in place through out=
     return out
 
 
@@ -117,8 +121,13 @@ def _aggregates(ctx):
     writers = [f for f in bucket.live_methods()
                if _stores_attr(f, 'self.free_capacity')]
     writers = [f for f in writers if f.name != '__init__']
+    # by role: the writer that looks at the children (a loop, or any other
+    # walk over them)
     downs = [f for f in writers if any(
-        isinstance(s, ast.For) for s in K.walk_no_nested(f.node))]
+        isinstance(s, ast.For) for s in K.walk_no_nested(f.node)) or any(
+            isinstance(s, ast.Attribute) and s.attr in (
+                'children', 'children_iter', 'children_by_name')
+            for s in K.walk_no_nested(f.node))]
     down = K.one(downs, 'Bucket routine recomputing the aggregate over the '
                         'children')
     up = K.one([f for f in writers if f is not down],
@@ -775,6 +784,26 @@ def _derived(index, attr_cls):
                                 leaf.id in ldefs and leaf.id not in seen:
                             seen.add(leaf.id)
                             todo.extend(ldefs[leaf.id])
+                if srcs:
+                    # a derived attribute stands for a source only while it
+                    # is kept up to date: a source that another method of
+                    # the class re-assigns without refreshing the derived
+                    # attribute is frozen at its construction value there
+                    dattr = sub.targets[0].attr
+                    stale = set()
+                    for meth in cls.methods.values():
+                        if meth.name == '__init__':
+                            continue
+                        stored = set(
+                            t.attr for st in K.walk_no_nested(meth.raw)
+                            if isinstance(st, (ast.Assign, ast.AugAssign))
+                            for t in (st.targets if isinstance(
+                                st, ast.Assign) else [st.target])
+                            if isinstance(t, ast.Attribute) and
+                            K.name_is(t.value, 'self'))
+                        if dattr not in stored:
+                            stale |= stored & srcs
+                    srcs -= stale
                 if srcs:
                     out[(cls.name, sub.targets[0].attr)] = srcs
     return out
